@@ -81,9 +81,9 @@ class Node:
 
 
 BINOPS = [("add", "+"), ("sub", "-"), ("mul", "*"), ("div", "/"), ("lt", "<"), ("le", "<="), ("gt", ">"), ("ge", ">="),
-          ("eq", "=="), ("ne", "!="), ("and", "&&"), ("or", "||")]
+          ("eq", "=="), ("ne", "!="), ("and", "&&"), ("or", "||"), ("mod", "%")]
 BINSYM = dict(BINOPS)
-PREC = {"or": 1, "and": 2, "eq": 3, "ne": 3, "lt": 4, "le": 4, "gt": 4, "ge": 4, "add": 5, "sub": 5, "mul": 6, "div": 6}
+PREC = {"or": 1, "and": 2, "eq": 3, "ne": 3, "lt": 4, "le": 4, "gt": 4, "ge": 4, "add": 5, "sub": 5, "mul": 6, "div": 6, "mod": 6}
 
 
 def sx(n):
@@ -479,10 +479,14 @@ class Gen:
                 opts.append(("proj", 2))
             if vars_r:
                 opts.append(("field", 3))
-            # tuple-returning functions are called only as `let t = f(..)` (simple_t); projections apply to variables
+            # tuple-returning functions are called as `let t = f(..)` (simple_t); projections apply to variables -- and, under
+            # the knob `call_proj`, to the call itself: `(f(x)).1 + (f(y)).0`, `g((f(x)).1, (f(y)).1)`. Two results of ONE
+            # tuple-returning function are then alive at once (repaired finding G8-WSM of C01: on WASM they were the same words)
             fs = [f for f in self.fns if f.ret == F and (ctx["allow_state"] or not f.stateful)]
             if fs:
                 opts.append(("call", 6))
+            if self.p.get("call_proj", False) and [f for f in self.fns if is_tuple(f.ret) and (ctx["allow_state"] or not f.stateful)]:
+                opts.append(("callproj", 9))
             if vars_fn:
                 opts.append(("appvar", 4))
             if ctx["allow_state"]:
@@ -501,8 +505,13 @@ class Gen:
         if k == "sr":
             return Node("sr")
         if k == "bin":
-            op = r.weighted([("add", 5), ("sub", 4), ("mul", 5), ("div", 2), ("lt", 1), ("le", 1), ("gt", 1), ("ge", 1),
-                             ("eq", 1), ("ne", 1), ("and", 1), ("or", 1)])
+            ops = [("add", 5), ("sub", 4), ("mul", 5), ("div", 2), ("lt", 1), ("le", 1), ("gt", 1), ("ge", 1),
+                   ("eq", 1), ("ne", 1), ("and", 1), ("or", 1)]
+            if self.p.get("modulo", False):
+                # `%` (former finding G5 of C01 -- WASM computed a - trunc(a/b)*b -- is repaired): the exact remainder on both
+                # back ends. The reference semantics has no `%` (it answers `error` = no prediction): VM against WASM only.
+                ops.append(("mod", 6))
+            op = r.weighted(ops)
             return Node("bin", op, self.simple(d - 1, ctx), self.simple(d - 1, ctx))
         if k == "un":
             op = r.pick(["neg", "sqrt", "abs", "neg", "sqrt", "abs", "floor", "ceil", "round"] if self.p.get("rounding", True) else ["neg", "sqrt", "abs"])
@@ -522,6 +531,13 @@ class Gen:
         if k == "call":
             f = r.pick([f for f in self.fns if f.ret == F and (ctx["allow_state"] or not f.stateful)])
             return self.mk_call(f, d, ctx)
+        if k == "callproj":
+            fts = [f for f in self.fns if is_tuple(f.ret) and (ctx["allow_state"] or not f.stateful)]
+            last = ctx.get("last_callproj")
+            # half of the time the function projected last in this body again: the aliasing shape itself
+            f = last if last in fts and r.chance(1, 2) else r.pick(fts)
+            ctx["last_callproj"] = f
+            return self.call_proj(f, d, ctx)
         if k == "appvar":
             v = r.pick(vars_fn)
             return Node("app", Node("var", v[0]), [self.simple(d - 1, ctx) for _ in range(v[1][1])])
@@ -549,6 +565,33 @@ class Gen:
                 return Node("self")
             return Node("bin", r.pick(["add", "mul", "sub"]), Node("self"), self.simple(d - 1, ctx))
         raise ValueError(k)
+
+    def call_proj(self, f, d, ctx):
+        """`(f(args)).i…`: a call of the tuple-returning f projected down to a number (results may be nested tuples)"""
+        e, t = self.mk_call(f, d, ctx), f.ret
+        while t != F:
+            i = self.r.below(len(t) - 1)
+            e, t = Node("proj", e, i), t[1 + i]
+        return e
+
+    def param_sensitive(self, fn):
+        """the pair-returning fn with both components of every result depending on its first parameter, so that two calls
+        with different arguments return different pairs"""
+        a = Node("var", fn.params[0])
+
+        def sens(n):
+            if n.kind in ("let", "lett", "set", "letp", "letr", "setf", "letrp"):
+                return Node(n.kind, *(list(n.a[:-1]) + [sens(n.a[-1])]))
+            if n.kind == "if":
+                return Node("if", n.a[0], sens(n.a[1]), sens(n.a[2]))
+            if n.kind == "tup":
+                c = n.a[0]
+            else:
+                xs = [self.fresh(), self.fresh()]
+                c = [Node("var", x) for x in xs]
+            t = Node("tup", [Node("bin", "add", c[0], a), Node("bin", "sub", c[1], a)])
+            return t if n.kind == "tup" else Node("lett", xs, n, t)
+        return fn.with_body(sens(fn.body))
 
     def mk_call(self, f, d, ctx):
         """a direct call of f in one of the surface styles: positional, pipe, tuple pipe, parameter pack with defaults"""
@@ -635,8 +678,31 @@ class Gen:
             tsf = [f for f in self.fns if getattr(f, "tuple_self", False)] if ctx["allow_state"] else []
             if tsf:
                 opts.append(("letpcall", 4))
+            fts = [f for f in self.fns if is_tuple(f.ret) and (ctx["allow_state"] or not f.stateful)] if self.p.get("call_proj", False) else []
+            if fts and d > 0:
+                opts.append(("letalias", 6))
             k = r.weighted([o for o in opts if o[1] > 0])
             self.bump("s_" + k)
+            if k == "letalias":
+                # two results of ONE tuple-returning function alive at once (repaired finding G8-WSM of C01): operands of one
+                # operation, or arguments of one call; the value reaches the block's result
+                f = r.pick(fts)
+                a, b = self.call_proj(f, d, ctx), self.call_proj(f, d, ctx)
+                gs = [g for g in self.fns if g.ret == F and len(g.params) >= 2 and (ctx["allow_state"] or not g.stateful)
+                      and not getattr(g, "rec", False)]
+                if gs and r.chance(2, 5):
+                    g = r.pick(gs)
+                    val = Node("call", g.name, [a, b] + [self.simple(d - 1, ctx) for _ in g.params[2:]], self.new_site(), "plain", list(g.params), [])
+                    self.bump("alias_args")
+                else:
+                    val = Node("bin", r.pick(["add", "sub", "mul"]), a, b)
+                    self.bump("alias_operands")
+                x = self.fresh()
+                stmts.append(("let", x, val))
+                ctx["vars"].append((x, F, True))
+                if t == F:
+                    must_use.append(x)
+                continue
             if k == "letrec":
                 fields = r.pick([["x", "y"], ["a", "b", "c"], ["freq", "amp"], ["p", "q", "r"], ["y", "x"], ["zz", "k", "m"]])
                 order = list(fields)
@@ -716,6 +782,12 @@ class Gen:
                 # is repaired: captured records are assignable under `closure_assign` like captured numbers)
                 lctx = dict(ctx, vars=cap + [(q, F, False) for q in ps], allow_state=False, self_type=None, in_lambda=True,
                             lam_depth=ctx.get("lam_depth", 1 if ctx.get("in_lambda") else 0) + 1)
+                if self.p.get("stateful_lambdas", False) and ctx["allow_state"]:
+                    # (former finding F11 of C01 -- on WASM a closure created inside dsp inherited the state of the previous
+                    # sample's instance -- is repaired) the closure body uses `self`, `mem`, `delay` and stateful functions; every
+                    # new closure instance owns fresh state. The reference semantics has no stateful closures (it answers
+                    # `error`, which the checks read as "no prediction"): VM against WASM only.
+                    lctx.update(allow_state=True, self_type=F, delays=set(), used_self=[False])
                 body = self.block(F, d - 1, lctx)
                 fname = self.fresh("f")
                 stmts.append(("let", fname, Node("lam", ps, body)))
@@ -966,8 +1038,14 @@ class Gen:
             if self.p.get("tuple_self", self.p.get("tuples", True)) and r.chance(1, 5):
                 self.fns.append(self.gen_tuple_self_fn(f"f{i}", genv))
                 continue
-            ret = F if (r.chance(4, 5) or not self.p.get("tuples", True)) else T(F, F)
+            if "tuple_ret_pct" in self.p:
+                ret = T(F, F) if r.chance(self.p["tuple_ret_pct"], 100) else F
+            else:
+                ret = F if (r.chance(4, 5) or not self.p.get("tuples", True)) else T(F, F)
             stateful = r.chance(self.p.get("stateful_pct", 60), 100)
+            if self.p.get("call_proj", False) and ret != F:
+                self.fns.append(self.param_sensitive(self.gen_fn(f"f{i}", 1 + r.below(2), ret, 1 + r.below(self.p.get("depth", 3)), stateful, genv)))
+                continue
             self.fns.append(self.gen_fn(f"f{i}", r.below(3), ret, 1 + r.below(self.p.get("depth", 3)), stateful, genv))
         # (former finding C03-K6 — a dsp with two parameters crashed at run time — is repaired: up to two input channels)
         nin = r.weighted([(0, 5), (1, 4), (2, 2)]) if self.p.get("inputs", True) else 0
@@ -1011,6 +1089,10 @@ PROFILES = {
     "deep_nr": dict(depth=5, max_fns=5, rounding=False),
     "closure_assign_nr": dict(closure_assign=True, rounding=False),
     "nolam": dict(lambdas=False),
+    # projections of calls of tuple-returning functions as operands and arguments (two results of one function alive at once:
+    # repaired finding G8-WSM of C01), half of the named functions return a pair
+    "callproj": dict(lambdas=False, call_proj=True, tuple_ret_pct=50, max_fns=5),
+    "callproj_lam": dict(call_proj=True, tuple_ret_pct=50, max_fns=5),
     "notup": dict(tuples=False),
     "stateless": dict(stateful_pct=0, self=False),
     "deep": dict(depth=5, max_fns=5),
@@ -1028,11 +1110,21 @@ PROFILES = {
     "nested_assign": dict(lam_depth=3, depth=4, closure_assign=True, escaping=True),
     "nested_nr": dict(lam_depth=3, depth=4, escaping=True, rounding=False),
     "nested_assign_nr": dict(lam_depth=3, depth=4, closure_assign=True, escaping=True, rounding=False),
+    "statelam": dict(stateful_lambdas=True),
+    "modulo": dict(lambdas=False, tuples=False, records=False, modulo=True),
+    "nested": dict(lam_depth=3, depth=4),
+    "nested_assign": dict(lam_depth=3, depth=4, closure_assign=True),
     "tupassign": dict(tuple_assign=True),
     "tupassign_nr": dict(tuple_assign=True, rounding=False),
     "aggr": dict(gen="aggr"),
     "aggr_nofn": dict(gen="aggr", fn_fields=False),
 }
+
+
+# (former finding G7 of C01 -- on WASM a bare `self` stored as a tuple component was projected out as the ADDRESS of its slot -- is
+# repaired: programs of its class `bare_self_in_tuple` are no longer rejected by `make_case`, in any profile)
+for _prof in PROFILES.values():
+    _prof.setdefault("avoid_g7", False)
 
 
 def est_cost(p):
@@ -1088,6 +1180,12 @@ def make_case(seed, idx, profile="core", times=24):
     inputs = []
     for t in range(times):
         inputs.append([r.pick([0.0, 1.0, -1.0, 0.5, 2.0, 3.25, -0.75, 100.0]) + (t if r.chance(1, 2) else 0) for _ in range(nin)])
+    # members of the classes of repaired findings, counted (G7: no longer rejected, see below PROFILES; G8-WSM: tuple results)
+    if PROFILES[profile].get("gen") != "aggr":
+        if bare_self_in_tuple(p):
+            g.stats["class_former_g7_bare_self_in_tuple"] = g.stats.get("class_former_g7_bare_self_in_tuple", 0) + 1
+        if same_tuple_fn_called_twice(p):
+            g.stats["class_former_g8_same_tuple_fn_called_twice"] = g.stats.get("class_former_g8_same_tuple_fn_called_twice", 0) + 1
     return p, inputs, g.stats
 
 
@@ -1451,10 +1549,29 @@ def shadow_renames(p):
 
 
 
+def same_tuple_fn_called_twice(p):
+    """class predicate of the repaired finding G8-WSM (C01): some function body calls ONE tuple-returning function at two
+    sites (`(f0(1.0)).1 + (f0(5.0)).1`): on WASM the two results were the same words of a per-function fixed area."""
+    tfn = {f.name for f in p.fns if is_tuple(f.ret)}
+
+    def calls(n, acc):
+        if isinstance(n, Node):
+            if n.kind == "call" and n.a[0] in tfn:
+                acc.append(n.a[0])
+            for _, ch in children(n):
+                calls(ch, acc)
+        return acc
+    for f in list(p.fns) + [p.dsp]:
+        cs = calls(f.body, [])
+        if len(cs) != len(set(cs)):
+            return True
+    return False
+
+
 def bare_self_in_tuple(p):
-    """class predicate of the listed finding G7 (C01): a bare `self` is a component of a tuple literal.  When nothing else
-    constrains the type of `self`, WASM types the component as an unresolved word (i64) and a projection of it that is
-    returned yields the ADDRESS of the slot (`fn dsp(){ let t = (1.0, self, now)  t.1 }`: VM 0, WASM 0x420)."""
+    """class predicate of the repaired finding G7 (C01): a bare `self` is a component of a tuple literal.  When nothing else
+    constrains the type of `self`, WASM typed the component as an unresolved word (i64) and a projection of it that is
+    returned yielded the ADDRESS of the slot (`fn dsp(){ let t = (1.0, self, now)  t.1 }`: VM 0, WASM 0x420)."""
     def walk(n):
         if not isinstance(n, Node):
             return False
